@@ -25,6 +25,11 @@ def load(repo):
     elif sys.path[0] != repo:
         sys.path.insert(0, repo)
     import pysyncobj.serializer as sermod
+    import logging
+    lg = logging.getLogger("pysyncobj.serializer")     # the code logs expected failures (missing dump file ...)
+    if not lg.handlers:
+        lg.addHandler(logging.NullHandler())
+        lg.propagate = False
     return sermod
 
 
